@@ -39,7 +39,7 @@ def chi2_noise(g):
     return noise
 
 
-def convergence_check(ctx, spec, k, tol, noise_free, n_loops=0, n_lm=0, max_iter=50, where="generated", decrement=True, history_rng=None):
+def convergence_check(ctx, spec, k, tol, noise_free, n_loops=0, n_lm=0, max_iter=50, where="generated", decrement=True, history_rng=None, far_guess=False):
     """Optimize spec with the real code and decide clauses (a)-(c).  Returns (res, fin, lam2, chi_prev) or None.
     With history_rng the judged run is the *second* one on the same graph object: a first short run, then a free pose vertex is marked fixed and
     another one is nudged (inside the neighbourhood), then the run that is judged (the first run is taken to convergence so that the vertex is frozen at a
@@ -73,6 +73,12 @@ def convergence_check(ctx, spec, k, tol, noise_free, n_loops=0, n_lm=0, max_iter
     except Exception as ex:
         ctx.check("converged-within-50", False, {"exception": type(ex).__name__, "kind": k}, {"message": str(ex)[:300]}, case)
         return None
+    if far_guess:
+        # landmarks that start from one common guess are metres away from where they belong: outside the calibrated neighbourhood (initial error
+        # <= 0.15 / 0.08 rad), so a run that diverges or does not settle says nothing about the property; a run that does converge is judged as usual
+        fin0 = res.final_chi2
+        if not (res.converged and fin0 is not None and math.isfinite(fin0) and fin0 <= res.initial_chi2):
+            raise Skip("shared landmark guess far from the landmarks: the run left the neighbourhood (no claim there)")
     ctx.count("class:" + k)
     ctx.count("class:loops" if n_loops else "class:tree")
     if n_lm:
@@ -180,7 +186,7 @@ def run_case(ctx, i, rng):
         spec["prebind_stale"] = True  # edges arrive linked to other Vertex objects with the same ids (a ground-truth graph built first)
         ctx.count("class:edges_prebound_to_stale_vertices")
     history = bool(i % 5 == 4)
-    out = convergence_check(ctx, spec, k, tol, noise_free, n_loops, n_lm, history_rng=(rng if history else None))
+    out = convergence_check(ctx, spec, k, tol, noise_free, n_loops, n_lm, history_rng=(rng if history else None), far_guess=share)
     if out is None:
         return
     res, fin, lam2, chi_prev = out
